@@ -294,6 +294,25 @@ pub fn write_instrs(
     Ok(())
 }
 
+/// Converts the value of an instruction header field to the integer type that stores it in the file.
+///
+/// Values that do not fit are an error that names the field, instead of being silently truncated.
+pub fn fit_header_field<T, U>(emitter: &dyn Emitter, field: &str, value: T) -> WriteResult<U>
+where T: Copy + std::fmt::Display, U: TryFrom<T>,
+{
+    U::try_from(value).map_err(|_| emitter.as_sized().emit(error!(
+        "{field} {value} does not fit in its {}-byte field", std::mem::size_of::<U>(),
+    )))
+}
+
+/// Refuses an instruction that [`InstrFormat::read_instr`] would take for the end-of-script marker.
+pub fn reject_end_marker_lookalike(emitter: &dyn Emitter, is_lookalike: bool) -> WriteResult {
+    match is_lookalike {
+        true => Err(emitter.as_sized().emit(error!("instruction is indistinguishable from the end-of-script marker"))),
+        false => Ok(()),
+    }
+}
+
 // =============================================================================
 // Hooks for use during raising/lowering
 
